@@ -817,6 +817,18 @@ func startsLikeJSONNumber(b []byte) bool {
 	return len(b) > 0 && (b[0] == '-' || ('0' <= b[0] && b[0] <= '9'))
 }
 
+// legacyPlainKeyKind reports whether v1 wrote a map key of this kind
+// from the value itself if no marshal method can be called on it.
+func legacyPlainKeyKind(k reflect.Kind) bool {
+	switch k {
+	case reflect.String,
+		reflect.Int, reflect.Int8, reflect.Int16, reflect.Int32, reflect.Int64,
+		reflect.Uint, reflect.Uint8, reflect.Uint16, reflect.Uint32, reflect.Uint64, reflect.Uintptr:
+		return true
+	}
+	return false
+}
+
 func makeMapArshaler(t reflect.Type) *arshaler {
 	// NOTE: The logic below disables namespaces for tracking duplicate names
 	// when handling map keys with a unique representation.
@@ -842,7 +854,15 @@ func makeMapArshaler(t reflect.Type) *arshaler {
 	}
 	nillableLegacyKey := t.Key().Kind() == reflect.Pointer &&
 		implementsAny(t.Key(), textMarshalerType, textAppenderType)
+	// For historical reasons, v1 refused to marshal a map type as a whole,
+	// even a nil or empty map, if its key type can only be converted to
+	// a JSON string by a method declared on the pointer receiver.
+	unencodableLegacyKey := !t.Key().Implements(textMarshalerType) && !t.Key().Implements(textAppenderType) &&
+		implementsAny(t.Key(), textMarshalerType, textAppenderType) && !legacyPlainKeyKind(t.Key().Kind())
 	fncs.marshal = func(enc *jsontext.Encoder, va addressableValue, mo *jsonopts.Struct) error {
+		if unencodableLegacyKey && mo.Flags.Get(jsonflags.CallMethodsWithLegacySemantics) {
+			return newMarshalErrorBefore(enc, t, nil)
+		}
 		// Check for cycles.
 		xe := export.Encoder(enc)
 		if xe.Tokens.Depth() > startDetectingCyclesAfter {
